@@ -25,14 +25,16 @@ OutChannels(f, c) == CASE f \in {"gradient", "igo", "es", "igo_of_gaussian", "no
                        [] IsDaisy(f) -> (Daisy[f].rings * Daisy[f].histograms + 1) * Daisy[f].orientations
                        [] OTHER -> c
 OutShape(f, sh) == IF IsDaisy(f) THEN <<CeilDiv(sh[1] - 2 * Daisy[f].radius, Daisy[f].step), CeilDiv(sh[2] - 2 * Daisy[f].radius, Daisy[f].step)>> ELSE sh
+\* the smallest image a DAISY grid fits in: one descriptor row (2 * radius + 1 pixels), a few columns
+MinShape(f) == <<2 * Daisy[f].radius + 1, 2 * Daisy[f].radius + 4>>
 Lms0 == << <<R(2), R(3)>>, <<R(5), R(6)>>, <<Q(7,2), R(1)>> >>
 Lms1 == << <<R(0), R(0)>>, <<R(11), R(13)>> >>
 ScaleLm(p, sh, sh2) == <<RMul(p[1], Q(sh2[1], sh[1])), RMul(p[2], Q(sh2[2], sh[2]))>>
 OutLms(f, sh, lms) == IF OutShape(f, sh) = sh THEN lms ELSE [i \in 1..Len(lms) |-> ScaleLm(lms[i], sh, OutShape(f, sh))]
 WrapCases == {[kind |-> "wrap", f |-> f, img |-> k, c |-> c, dtype |-> dt, shape |-> sh, nlm |-> n] :
                 <<f, k, c, dt, sh, n>> \in {<<f, k, c, dt, sh, n>> \in (Simple \cup DOMAIN Daisy) \X {"image", "masked_full", "masked_sparse"} \X {1, 3, 4}
-                                              \X {"float64", "float32"} \X {<<12, 14>>, <<40, 37>>} \X {0, 2} :
-                                            (IsDaisy(f) => (sh = <<40, 37>> /\ c \in {1, 3})) /\ (~IsDaisy(f) => sh = <<12, 14>>)}}
+                                              \X {"float64", "float32"} \X ({<<12, 14>>, <<40, 37>>} \cup {MinShape(g) : g \in DOMAIN Daisy}) \X {0, 2} :
+                                            (IsDaisy(f) => (sh \in {<<40, 37>>, MinShape(f)} /\ c \in {1, 3})) /\ (~IsDaisy(f) => sh = <<12, 14>>)}}
 WrapOut(c) == [case |-> c, kind |-> IF c.img = "image" THEN "Image" ELSE "MaskedImage",
                channels |-> OutChannels(c.f, c.c), shape |-> OutShape(c.f, c.shape),
                lms |-> IF c.nlm = 0 THEN <<>> ELSE << <<"first", OutLms(c.f, c.shape, Lms0)>>, <<"second", OutLms(c.f, c.shape, Lms1)>> >>,
